@@ -71,7 +71,6 @@ theorem populate_inv {bs : List String} {typ : String} {objs : List Pat} {node :
   unfold populate at hp
   cases hc : classify typ <;> simp only [hc] at hp
   case tyinfo => cases hp
-  case unsupported => cases hp
   case unknown => cases hp
   case orC =>
     cases hp
